@@ -446,6 +446,7 @@ type c13Reg struct {
 	}
 	live    bool
 	path    string
+	k       int // endpoint (path) key of the registration, for the limiter events
 	seq     uint32
 	got     int
 	gotLock sync.Mutex
@@ -533,6 +534,19 @@ func (p *c13Run) serverHandler(w *responsewriter.ResponseWriter[*client.Conn], r
 			return
 		}
 		_ = w.SetResponse(codes.Content, message.TextPlain, bytes.NewReader([]byte("v")))
+	case path == "vobs":
+		// the representation the ETag of the request names is still fresh: 2.03 Valid, no payload
+		if o, err := r.Observe(); err == nil && o == 0 {
+			p.bmu.Lock()
+			p.obsTok[path] = append([]byte{}, r.Token()...)
+			p.bmu.Unlock()
+			_ = w.SetResponse(codes.Valid, message.TextPlain, nil, message.Option{ID: message.ETag, Value: c13ETag}, message.Option{ID: message.Observe, Value: []byte{2}})
+			return
+		}
+		_ = w.SetResponse(codes.Valid, message.TextPlain, nil, message.Option{ID: message.ETag, Value: c13ETag})
+	case path == "vno":
+		// a server that validates the ETag but does not observe: 2.03 Valid without the Observe option
+		_ = w.SetResponse(codes.Valid, message.TextPlain, nil, message.Option{ID: message.ETag, Value: c13ETag})
 	case path == "noobs":
 		_ = w.SetResponse(codes.Content, message.TextPlain, bytes.NewReader([]byte("v")))
 	case path == "nf":
@@ -784,9 +798,12 @@ const (
 	kUpD
 	kH0
 	kNest = kH0 + 3
+	// round 5: registrations answered 2.03 Valid (conditional observe, the request carries an ETag)
+	kVObs = kNest + 1 // ... with the Observe option: registered
+	kVNo  = kNest + 2 // ... without it: the server did not register the client
 )
 
-var c13Paths = map[int]string{kGet: "a", kBig: "big", kUp: "up", kUpBig: "upbig", kObs: "obs", kNoObs: "noobs", kNf: "nf", kBad: "bad", kDl: "dl", kDrop: "d0", kUpD: "d1", kH0: "h0", kH0 + 1: "h1", kH0 + 2: "h2", kNest: "nest"}
+var c13Paths = map[int]string{kGet: "a", kBig: "big", kUp: "up", kUpBig: "upbig", kObs: "obs", kNoObs: "noobs", kNf: "nf", kBad: "bad", kDl: "dl", kDrop: "d0", kUpD: "d1", kH0: "h0", kH0 + 1: "h1", kH0 + 2: "h2", kNest: "nest", kVObs: "vobs", kVNo: "vno"}
 
 // limiter events of a request that finds its endpoint free
 func (p *c13Run) limIn(k int) int {
@@ -1099,12 +1116,14 @@ func (p *c13Run) opRst(id int) {
 	p.ev(true, fmt.Sprintf("RxRst %d", h.r))
 }
 
+var c13ETag = []byte{0xE7, 0xA6, 0x13, 0x05}
+
 func (p *c13Run) opObserve(k int, dup bool) {
 	path := "/" + c13Paths[k]
 	p.tokMu.Lock()
 	tokZ := int(p.tokCtr + 1)
 	p.tokMu.Unlock()
-	reg := &c13Reg{path: path, tokZ: tokZ}
+	reg := &c13Reg{path: path, tokZ: tokZ, k: k}
 	id := len(p.regs)
 	p.regs = append(p.regs, reg)
 	r := p.limIn(k)
@@ -1112,13 +1131,17 @@ func (p *c13Run) opObserve(k int, dup bool) {
 		Cancel(ctx context.Context, opts ...message.Option) error
 	}
 	err, ok := p.call(func() error {
+		var ropts []message.Option
+		if k == kVObs || k == kVNo {
+			ropts = append(ropts, message.Option{ID: message.ETag, Value: c13ETag}) // conditional registration
+		}
 		o, err := p.a.cc.Observe(context.Background(), path, func(n *pool.Message) {
 			trkHold(n) // C12: the notification belongs to the application until the callback returns
 			defer trkUnhold(n)
 			reg.gotLock.Lock()
 			reg.got++
 			reg.gotLock.Unlock()
-		})
+		}, ropts...)
 		obs = o
 		return err
 	})
@@ -1136,6 +1159,21 @@ func (p *c13Run) opObserve(k int, dup bool) {
 			reg.obs = obs
 			reg.live = true
 			reg.seq = 2
+		}
+	case kVObs:
+		p.ev(true, fmt.Sprintf("ObMsg %s 67 (Some [2]) 0", coqBytes(tb)))
+		if ok {
+			p.expect("observe-valid", err, false)
+		}
+		if err == nil && obs != nil {
+			reg.obs = obs
+			reg.live = true
+			reg.seq = 2
+		}
+	case kVNo:
+		p.ev(true, fmt.Sprintf("ObMsg %s 67 None 0", coqBytes(tb)))
+		if ok {
+			p.expect("observe-valid-noobs", err, false)
 		}
 	case kNoObs:
 		p.ev(true, fmt.Sprintf("ObMsg %s 69 None 0", coqBytes(tb)))
@@ -1201,7 +1239,7 @@ func (p *c13Run) opObsCancel(id int) {
 	p.ev(true, fmt.Sprintf("ObCancel %d 69", id))
 	var r int
 	if wasLive {
-		r = p.limIn(kObs)
+		r = p.limIn(reg.k)
 		p.ev(true, fmt.Sprintf("BwPutS %d", reg.tokZ))
 		p.ev(true, fmt.Sprintf("RxSend %d", r))
 	}
@@ -1435,6 +1473,10 @@ func (p *c13Run) applyOne(op string) {
 			k = kNoObs
 		} else if len(f) > 1 && f[1] == "nf" {
 			k = kNf
+		} else if len(f) > 1 && f[1] == "vok" {
+			k = kVObs
+		} else if len(f) > 1 && f[1] == "vno" {
+			k = kVNo
 		}
 		p.opObserve(k, dup)
 	case "notify":
@@ -1784,7 +1826,7 @@ func sortInts(xs []int) { sort.Ints(xs) }
 func runC13(a runArgs) error {
 	e := NewEmitter("C13", "Conn.Run")
 	e.ShardSize = 40
-	e.Rule = "A case is one history of exchange-level operations on a back-to-back pair of real udp/client.Conn (plain, block-wise up/down, observe + notifications + cancel, ping, one-way; ending by success, silence+cancel, deadline, reset, malformed block, duplicate token, queued in the limiter then cancelled -- also held between the select of acquireEndpoint and cancelEndpoint while a finishing request hands its slot over; Cancel of an observation whose deregistration exchange fails; duplicates per direction), all 11 table sizes of both connections read after every operation, after cancelling what still hangs, and after ageing + MAX_RETRANSMIT+1 far ticks. distinct = distinct descriptor; non-trivial = at least one operation that does not end by plain success (nest = a copy of a request contending for the per-ID lock counts). Sweep: one pkg/cache.Cache swept once; non-trivial = some but not all entries expired, or more than 32. Locks: a Lock/TryLock/Unlock script on one real MutexMap, entries + reference counts + goroutine states after every call; non-trivial = some call finds its key taken. MidRace: exchanges with message-ID continuations on one real connection, housekeeping ticks, one of them interrupted between Range's fetch and the callback with exchanges ending/starting there; non-trivial = contains an interrupted tick."
+	e.Rule = "A case is one history of exchange-level operations on a back-to-back pair of real udp/client.Conn (plain, block-wise up/down, observe + notifications + cancel, ping, one-way; ending by success, silence+cancel, deadline, reset, malformed block, duplicate token, queued in the limiter then cancelled -- also held between the select of acquireEndpoint and cancelEndpoint while a finishing request hands its slot over; Cancel of an observation whose deregistration exchange fails; duplicates per direction), all 11 table sizes of both connections read after every operation, after cancelling what still hangs, and after ageing + MAX_RETRANSMIT+1 far ticks. distinct = distinct descriptor; non-trivial = at least one operation that does not end by plain success (nest = a copy of a request contending for the per-ID lock counts). Sweep: one pkg/cache.Cache swept once; non-trivial = some but not all entries expired, or more than 32. Locks: a Lock/TryLock/Unlock script on one real MutexMap, entries + reference counts + goroutine states after every call; non-trivial = some call finds its key taken. MidRace: exchanges with message-ID continuations on one real connection, housekeeping ticks, one of them interrupted between Range's fetch and the callback with exchanges ending/starting there; non-trivial = contains an interrupted tick. KaTcp: keep-alive rounds on one real tcp/client.Conn with a scripted peer, token table length after every step; non-trivial = a ping is left unanswered while another message arrives and a further tick follows."
 	rng := NewRng(a.seed)
 	add := func(le int, ops []string, bucket string) {
 		coq, ok, bad := runC13History(le, ops)
@@ -1855,7 +1897,33 @@ func runC13(a runArgs) error {
 		}
 		e.AddW(coq, d, strings.Contains(d, "x:"), 1, hb...)
 	}
+	addKa := func(d string) {
+		coq, _ := runC13Ka(d)
+		_, kops := c13KaParse(d)
+		hb := []string{"katcp"}
+		// non-trivial: some message other than the pong arrives while a ping is unanswered, and a tick follows
+		nt, open, other := false, false, false
+		for _, o := range kops {
+			hb = append(hb, "katcp:"+strings.Split(o, ":")[0])
+			switch {
+			case o == "t":
+				if open && other {
+					nt = true
+				}
+				open, other = true, false
+			case o == "m" || o == "q":
+				other = open
+			case o == "p":
+				open = false
+			}
+		}
+		e.AddW(coq, d, nt, 1, hb...)
+	}
 	if a.only != "" {
+		if strings.HasPrefix(a.only, "katcp ") {
+			addKa(a.only)
+			return e.Flush(a.out)
+		}
 		if strings.HasPrefix(a.only, "locks ") {
 			addLocks(a.only)
 			return e.Flush(a.out)
@@ -1909,6 +1977,9 @@ func runC13(a runArgs) error {
 		{"hack:1:0", "hack:2:0", "hack:3:0", "cpark:2", "cpark:3", "cancel:1", "cresume:2", "cresume:3"},
 		{"hack:1:0", "hack:2:0", "cpark:2", "cancel:1", "get", "hack:3:0", "cresume:2", "cancel:3"},
 		{"hack:1:0", "hack:2:0", "hack:3:1", "cpark:2", "cancel:1", "tick:100", "cresume:2", "hack:4:0"},
+		// round 5: conditional registrations (ETag) answered 2.03 Valid, with and without the Observe option
+		{"obs:vno"}, {"obs:vok", "notify:0:2:1", "obscancel:0"}, {"obs:vok"}, {"Dobs:vno"}, {"obs:vno", "obs:no", "obs:vno", "get"},
+		{"obs:vok", "obs:vno", "obs:ok", "obscancel:0", "obscancelfail:2"}, {"obs:vno", "tick:100", "obs:vno", "obscancel:0"},
 	}
 	for _, le := range []int{1, 0} {
 		for _, ops := range fixed {
@@ -1948,6 +2019,21 @@ func runC13(a runArgs) error {
 		if r3 := rng.Fork(); r3.Chance(45) {
 			ops = c13Round4(r3, ops)
 		}
+		// round 5: some registrations are conditional and answered 2.03 Valid (with / without Observe)
+		if r5 := rng.Fork(); r5.Chance(50) {
+			for j, o := range ops {
+				switch {
+				case strings.HasSuffix(o, "obs:ok") && r5.Chance(40):
+					ops[j] = strings.Replace(o, "obs:ok", "obs:vok", 1)
+				case strings.HasSuffix(o, "obs:no") && r5.Chance(60):
+					ops[j] = strings.Replace(o, "obs:no", "obs:vno", 1)
+				}
+			}
+			if r5.Chance(40) {
+				at := r5.Intn(len(ops) + 1)
+				ops = append(ops[:at], append([]string{"obs:vno"}, ops[at:]...)...)
+			}
+		}
 		add(le, ops, "random")
 	}
 	// the per-ID lock map on its own: Lock / TryLock / Unlock scripts of 2-4 goroutines
@@ -1981,6 +2067,21 @@ func runC13(a runArgs) error {
 	}
 	for i := 0; i < nr; i++ {
 		addRace(strings.Replace(genC13MidRace(rng.Fork()), "midrace ", "midrace|", 1))
+	}
+	// round 5: keep-alive pings on a real tcp/client.Conn: unanswered pings, other messages in between, late pongs
+	for _, d := range []string{
+		"katcp mr=5|t p", "katcp mr=5|t t t p", "katcp mr=5|t m t p", "katcp mr=5|t m t m t p", "katcp mr=5|t q t q t q t p",
+		"katcp mr=2|t m t m t m t m t p", "katcp mr=1|t t t", "katcp mr=1|t m t t t", "katcp mr=5|t m t po:1 p", "katcp mr=5|t po:1 m t po:7 p",
+		"katcp mr=3|m t p t p m t m q t p", "katcp mr=2|t q m t t t t", "katcp mr=5|p m q t t m p t",
+	} {
+		addKa(d)
+	}
+	nk := 30
+	if a.tier == "thorough" {
+		nk = 300
+	}
+	for i := 0; i < nk; i++ {
+		addKa(genC13Ka(rng.Fork()))
 	}
 	return e.Flush(a.out)
 }
